@@ -7,7 +7,9 @@ records for the same program; nothing is recorded while tracing is off."""
 import json
 import numpy
 import lib, progs
-from lib import Report
+import tracer_model as tm
+from lib import Report, qlit, qseq, natseq
+from fractions import Fraction
 
 PID = 'C05'
 
@@ -62,8 +64,10 @@ def main(tier, seed):
     rep.theorems()
     rng = lib.rng_for(seed, PID)
     n_prog = 120 if tier == 'quick' else 2500
-    for _ in range(n_prog):
-        prog = progs.gen_prog(rng, ap, nout=rng.choice([1, 1, 2]))
+    terms, metas = [], []
+    for it in range(n_prog):
+        rational = it % 3 == 0
+        prog = progs.gen_prog(rng, ap, nout=rng.choice([1, 1, 2]), rational=rational)
         N = prog['N']
         rec_kind = rng.choice(['ndarray', 'UTPM'])
         x_rec, rmeta = make_input(ap, rng, N, rec_kind)
@@ -96,6 +100,22 @@ def main(tier, seed):
         if len(cg.functionList) != n_before or cg.functionCount != n_before:
             rep.violation('tape:off', 'operations executed while tracing is off were recorded', dict(kind='tape', prog=prog, case=meta))
             continue
+        # tape and replay against the Coq model (rational scalar programs with buffers)
+        if rational and tm.in_model(prog):
+            shape = tm.impl_tape_shape(cg)
+            terms.append('(@wf_prog ser %d %s && (tape_shape (T_record %s).1 == %s))' % (N, tm.prog_lit(prog, 1), tm.prog_lit(prog, 1), tm.shape_lit(shape)))
+            metas.append(dict(check='recorded tape', program=text, prog=prog, tape=[list(t) for t in tape]))
+            D = rng.randint(1, 3)
+            d2 = progs.rand_utpm_data(rng, D, 1, N)
+            try:
+                got = cg.function([ap.UTPM(d2.copy())])
+                outs = [f.ID for f in fys]
+                ys = '[:: ' + '; '.join(qseq([lib.frac(v) for v in as_data(g)[:, 0]]) for g in got) + ']'
+                terms.append('(sers_close %s (T_replay_out %d (T_record %s).1 %s %s) %s)'
+                             % (qlit(Fraction(1, 2 ** 30)), D, tm.prog_lit(prog, D), natseq(outs), tm.series_list(d2[:, 0, :]), ys))
+                metas.append(dict(check='replay value', program=text, prog=prog, x=d2.tolist()))
+            except Exception as e:
+                rep.notes.append('model replay case raised %r' % e)
         # (2) replays
         for _r in range(rng.randint(1, 4)):
             kind = rng.choice(['ndarray', 'UTPM', 'UTPM'])
@@ -119,6 +139,18 @@ def main(tier, seed):
                               dict(kind='replay', prog=prog, case=meta, x_rec=as_data(x_rec).tolist(), x_new=as_data(xn).tolist(), new=nmeta,
                                    got=[as_data(g).tolist() for g in got], want=[as_data(w).tolist() for w in want]))
                 break
+    verdicts, logs = lib.eval_bool_cases(PID, tm.IMPORTS, tm.DEFS, terms, per_file=40)
+    bad = 0
+    for m, v, t in zip(metas, verdicts, terms):
+        rep.count('model', m['check'])
+        rep.case(('model', m['check'], m['program'], json.dumps(m.get('x'))), True, sample=dict(check=m['check'], program=m['program'][:300]))
+        if v is None:
+            bad += 1
+        elif not v:
+            rep.violation('model:' + m['check'].replace(' ', '-'), '%s differs from what the proved model Tracer.v gives for the same program' % m['check'],
+                          dict(kind='model', case={k: m[k] for k in m if k != 'prog'}, prog=m['prog'], coq_term=t[:5000]))
+    if bad or logs:
+        rep.violation('corr:uneval', 'correspondence corr.C05 could not be evaluated for %d cases' % bad, dict(kind='correspondence', name='corr.C05', log=logs[:3]), no_input=True)
     return rep.finish()
 
 
